@@ -548,6 +548,6 @@ func ruleNotIgnored(w *World, r *Report, pf *patchFamily, scope func(*ssa.Functi
 // C17 promises (the round trip of v1's own diffs; C17 does not promise that
 // bad patches are rejected). One line of reason each.
 var libPatchExempt = map[string]string{
-	"lib.(jsonSet).patch→invoke.patch":      "the keyed member of a v1 set is always a jsonObject (a map): its patch mutates it in place and returns the same map, so dropping the result loses nothing on v1's own diffs; the dropped error only matters for foreign patches, which C17 does not quantify over (the v2 twin is known finding K3 of C08)",
+	"lib.(jsonSet).patch→invoke.patch":    "the keyed member of a v1 set is always a jsonObject (a map): its patch mutates it in place and returns the same map, so dropping the result loses nothing on v1's own diffs; the dropped error only matters for foreign patches, which C17 does not quantify over (the v2 twin is known finding K3 of C08)",
 	"lib.(jsonSet).patch:returns-input#1": "same site: the member object was patched in place by the nested call",
 }
